@@ -58,6 +58,7 @@ structure Event where
   data : Option Bytes := none     -- data callbacks: the bytes (none = NULL = end marker)
   isLast : Bool := false
   gapLen : Nat := 0               -- NULL data with a non-zero length (stream gap)
+  stale : Bool := false           -- the pointer handed out refers to a chunk whose data call has returned
   reqProgress : Nat := 0
   resProgress : Nat := 0
   deriving Repr, DecidableEq, Inhabited
@@ -100,7 +101,7 @@ structure Tx where
   reqIgnoredLines : Nat := 0
   expectedStatus : Int := 0
   urlenBody : Option Urlenc.S := none    -- request_urlenp_body
-  txReqBodyHook : Bool := false
+  txReqBodyHook : Nat := 0
   -- response
   resProgress : Nat := 0
   resLine : Option Bytes := none
@@ -120,7 +121,7 @@ structure Tx where
   seen100 : Nat := 0
   resHeaderRepetitions : Nat := 0
   resIgnoredLines : Nat := 0
-  txResBodyHook : Bool := false
+  txResBodyHook : Nat := 0
   deriving Repr, Inhabited
 
 /-- one direction's chunk cursor and buffers -/
@@ -140,6 +141,7 @@ structure Dir where
   bodyDataLeft : Int := 0
   chunkedLength : Int := 0
   receiverHook : Option Hook := none
+  live : Bool := false           -- a data call of this direction is running (its chunk pointer is valid)
   deriving Repr, Inhabited
 
 structure Conn where
@@ -162,6 +164,7 @@ structure Conn where
   -- callbacks
   policy : List (Nat × CbAction) := []   -- (global callback invocation number, action)
   cbCount : Nat := 0
+  allowCbDestroy : Bool := true          -- false when tx_auto_destroy is on (the library destroys it itself)
   events : List Event := []              -- newest first; cleared by the driver per call
   -- model bookkeeping
   unsupported : Bool := false            -- the run entered behaviour the model does not cover
